@@ -37,12 +37,28 @@ func rt_11(c *core.Ctx, p *core.Prog) {
 			continue
 		}
 		sig := fn.Signature
-		// decode(interface{}, pcommon.Value) error : recursive
-		if sig.Params().Len() == 2 && isAny(sig.Params().At(0).Type()) && core.TypeName(sig.Params().At(1).Type()) == "Value" && isPdataType(sig.Params().At(1).Type()) {
+		// decode(interface{}, pcommon.Value, …) error and encode(*cbor.Encoder, *pcommon.Value, …) error:
+		// recognised by the parameter types they must have, whatever else they take
+		hasAny, hasValue, hasEnc := false, false, false
+		for k := 0; k < sig.Params().Len(); k++ {
+			t := sig.Params().At(k).Type()
+			switch {
+			case isAny(t):
+				hasAny = true
+			case strings.Contains(t.String(), "cbor") && strings.HasSuffix(t.String(), ".Encoder"):
+				hasEnc = true
+			}
+			if pt, ok := t.(*types.Pointer); ok {
+				t = pt.Elem()
+			}
+			if core.TypeName(t) == "Value" && isPdataType(t) {
+				hasValue = true
+			}
+		}
+		if hasAny && hasValue && !hasEnc {
 			dec = fn
 		}
-		// encode(*cbor.Encoder, *pcommon.Value) error
-		if sig.Params().Len() == 2 && strings.Contains(sig.Params().At(0).Type().String(), "cbor") && strings.HasSuffix(sig.Params().At(0).Type().String(), ".Encoder") {
+		if hasEnc && hasValue {
 			enc = fn
 		}
 	}
